@@ -266,7 +266,7 @@ class JoinGen:
         return ' '.join(parts), sx, kinds, cur
 
     # ------------------------------------------------------------------ a whole case
-    def case(self, kind=None, struct=None, n=None, must_resolve=True):
+    def case(self, kind=None, struct=None, n=None, must_resolve=True, prefix=False):
         r = self.r
         kind = kind or r.choice(KINDS)
         if struct is None:
@@ -316,6 +316,12 @@ class JoinGen:
         optxt = ', '.join('%s as %s' % (opexpr[k][0] if k in opexpr else name, al) if al else name for k, (al, name) in enumerate(ops))
         utxt = (' using ' + ', '.join(using)) if using else ''
         vtl = 'DS_r <- %s_join(%s%s%s);' % (kind, optxt, utxt, (' ' + btxt) if btxt else '')
+        if prefix:
+            # the same operands and aliases joined once more, with another body, in an EARLIER statement of the script:
+            # nothing of that statement may leak into DS_r
+            b2 = self.body(comps, must_resolve=True, apply_aliases=[a for a, _ in opl] if n == 2 and kind != 'cross' else None)
+            vtl = 'DS_p <- %s_join(%s%s%s); %s' % (kind, optxt, utxt, (' ' + b2[0]) if b2[0] else '', vtl)
+            variant = variant + '+after-another-join'
         usx = '(%s)' % ' '.join(name_sx(u) for u in using) if using else '_'
         sx = '(join %s (%s) %s %s)' % (kind, ' '.join('(%s %s)' % (name_sx(al or name), opexpr[k][1] if k in opexpr else '(ds %s)' % name) for k, (al, name) in enumerate(ops)), usx, bsx)
         stripped = [c[0].split('#', 1)[1] if '#' in c[0] else c[0] for c in final]
